@@ -20,11 +20,12 @@ pub static PROP: Prop = Prop {
     fixed,
     replay: Some(replay),
     breadcrumb: false,
+    fuzz: &[Fuzz { target: "choice", choice: true, runs: 300000, max_len: 640 }],
 };
 
 fn budget(t: Tier) -> Budget {
     Budget {
-        cases: t.pick(400_000, 8_000_000),
+        cases: t.pick(2_000_000, 30_000_000),
         max_len: 160,
         shards: 16,
         dual_profile: false,
